@@ -23,7 +23,7 @@ import tempfile
 HERE = os.path.dirname(os.path.dirname(os.path.dirname(os.path.abspath(__file__))))
 SO = os.path.join(HERE, "build", "faultfs.so")
 
-OPS = {"write": 1, "rename": 2, "sendfile": 3, "copy_file_range": 4, "open": 5, "unlink": 6, "fsync": 7}
+OPS = {"write": 1, "rename": 2, "sendfile": 3, "copy_file_range": 4, "open": 5, "unlink": 6, "fsync": 7, "close": 8}
 NAMES = ["out.dat", "ABS", "a b.dat", "é.dat", "a#b.dat", "a?b.dat", "a;b.dat", "c:d.dat", "sub/x.dat", "./rel.dat"]
 
 
@@ -112,6 +112,8 @@ def schedules(tier, counts):
     out.append(("rename-EACCES", [("rename", 1, 1, errno.EACCES, 0)]))
     out.append(("rename-EXDEV", [("rename", 1, 1, errno.EXDEV, 0)]))
     out.append(("open-dest-EACCES", [("open", 2, 1, errno.EACCES, 0)]))
+    out.append(("close#1-EIO", [("close", 1, 1, errno.EIO, 0)]))
+    out.append(("close#1-EIO+unlink-EACCES", [("close", 1, 1, errno.EIO, 0), ("unlink", 1, 1, errno.EACCES, 0)]))
     if tier == "thorough":
         for k in range(1, W + 1):
             out.append(("write#%d-short+write#%d-ENOSPC" % (k, k + 1), [("write", k, 2, 0, 7), ("write", k + 1, 1, errno.ENOSPC, 0)]))
